@@ -356,14 +356,15 @@ struct FipsRaceSim : Sim {
                                 o.kind = OPK_STALL;
                                 o.a = (int64_t) g.below(1 << 16);
                                 o.b = vast ? (int64_t) ((1ull << 32) + (1ull << 20) + g.below(1 << 16)) : big ? (int64_t) ((1u << 24) + (1u << 16) + g.below(1 << 16)) : (int64_t) (1ull << (8 + 4 * g.below(4))) + (int64_t) g.below(7);
-                                // early in the schedule, where waiters exist
-                                p.ops.insert(p.ops.begin() + g.below(std::min<size_t>(p.ops.size(), 60) + 1), o);
+                                // early in the schedule, where waiters exist; the long stalls come first and the schedule is fair until a waiter spins
+                                p.ops.insert(p.ops.begin() + (big ? 0 : g.below(std::min<size_t>(p.ops.size(), 60) + 1)), o);
                         }
                         if (big) {
                                 p.cfg["tasks"] = std::max<int64_t>(2, p.cfg["tasks"]);
                                 p.cfg["policy"] = 0;
                                 p.cfg["impl"] = 0;
                                 p.cfg["real"] = 0;
+                                p.cfg["force_stall"] = 1;
                         }
                 }
                 return p;
@@ -558,6 +559,13 @@ struct FipsRaceSim : Sim {
                         g_sched_skip = 0;
                         steps++;
                         r.steps++;
+                        // the runner is still held up: a waiter that has left the wait loop during the stall goes on alone
+                        for (int extra = 0; extra < 64 && !sched.task(t).done && sched.task(t).last_point != 3; extra++) {
+                                r.cov.hit("probe_stalled_waiter_left_the_loop_and_went_on_alone");
+                                sched.step(t);
+                                steps++;
+                                r.steps++;
+                        }
                         return true;
                 };
                 while (!sched.all_done()) {
@@ -616,6 +624,8 @@ struct FipsRaceSim : Sim {
                         } else {
                                 pick = run[rr++ % run.size()]; // deterministic fair fallback
                         }
+                        if (!deferred.empty() && p.get("force_stall"))
+                                pick = run[rr++ % run.size()]; // a long stall is waiting for a spinning waiter: round-robin produces one
                         last_was_spin = false;
                         {
                                 struct itimerval it;
